@@ -120,10 +120,16 @@ def run(rep):
                                                     crop.mk([5], bmode="size", bval=2), crop.mk([4], bmode="count", bval=6),
                                                     crop.mk([9], bmode="count", bval=4, farmer="runner")],
                      acts=["grow_missing", "reap_default", "campaign2", "reload"], max_steps=5, mode="bfs", need=["DoSow"], sample=400))
+    # a re-sow with other constants while some batches have results already: every batch file (also those of finished batches)
+    # holds exactly the keyword arguments a direct run would pass now
+    runs.append(dict(name="C07_reconst", configs=[crop.mk([5], bmode="size", bval=2), crop.mk([6], bmode="count", bval=3, farmer="runner"),
+                                                  crop.mk([4], bmode="count", bval=2, shufSow=1)],
+                     acts=["grow", "const_mid", "resow"], max_steps=4, mode="bfs", need=["DoChangeConstMid", "DoReSow"], sample=600))
 
     def variants(case, idx):
         v = crop.default_variants(case, idx)
-        v["sow_override"] = (idx % 2 == 0)      # (these histories only sow / reload / re-sow)
+        # (only for histories that sow / reload / re-sow and nothing else)
+        v["sow_override"] = (idx % 2 == 0) and not any(ev["a"] in ("grow", "grow_missing", "reap", "change_const") for ev in case["hist"])
         v["resow_drop_consts"] = (idx % 3 == 0) and not any(ev["a"] in ("grow", "grow_missing", "reap") for ev in case["hist"])
         return v
     crop.drive(rep, runs, variants=variants, claims=lambda tag: tag in ("batches", "numbers", "outcome_sow", "outcome_reload", "obs_sow", "obs_reload",
